@@ -41,6 +41,9 @@ type InCase struct {
 	// RS/FS set by the program although CSV/TSV input mode ignores them ("-" = leave alone)
 	RS h.Str `json:"rs,omitempty"`
 	FS h.Str `json:"fs,omitempty"`
+	// how the program takes its records: "" the main loop, "getline" a plain-getline loop in BEGIN,
+	// "mixed" the main loop plus a plain getline in every action (every second record arrives by getline)
+	Reader string `json:"reader,omitempty"`
 }
 
 const bom = "\xEF\xBB\xBF"
@@ -51,14 +54,16 @@ type rec struct {
 	bad    int
 }
 
-const probeProg = `{
+const probeDump = `function dump(   i, bad) {
   printf "%d %d:%s", NR, length($0), $0
   for (i = 1; i <= NF; i++) printf " %d:%s", length($i), $i
   bad = 0
   for (i = 1; i <= NF && (i in FIELDS); i++) if ((@(FIELDS[i]) "") != ($i "")) bad++
   printf " bad=%d\n", bad
 }
-END {
+`
+
+const probeEnd = `END {
   n = 0; for (k in FIELDS) n++
   printf "END %d %d", NR, n
   for (i = 1; i <= n; i++) printf " %d:%s", length(FIELDS[i]), FIELDS[i]
@@ -66,13 +71,29 @@ END {
 }
 `
 
-const probeProgNoHeader = `{
+const probeDumpNoHeader = `function dump(   i) {
   printf "%d %d:%s", NR, length($0), $0
   for (i = 1; i <= NF; i++) printf " %d:%s", length($i), $i
   printf " bad=0\n"
 }
-END { printf "END %d 0\n", NR }
 `
+
+const probeEndNoHeader = `END { printf "END %d 0\n", NR }
+`
+
+func probeSource(header bool, reader string) string {
+	dump, end := probeDumpNoHeader, probeEndNoHeader
+	if header {
+		dump, end = probeDump, probeEnd
+	}
+	switch reader {
+	case "getline":
+		return dump + "BEGIN { while ((getline) > 0) dump() }\n" + end
+	case "mixed":
+		return dump + "{ dump(); if ((getline) > 0) dump() }\n" + end
+	}
+	return dump + "{ dump() }\n" + end
+}
 
 func takeLen(s string) (string, string, bool) {
 	i := strings.IndexByte(s, ':')
@@ -178,10 +199,7 @@ func modeString(c InCase) string {
 }
 
 func execIn(c InCase, input []byte, chunks []int) (string, error) {
-	src := probeProgNoHeader
-	if c.Header {
-		src = probeProg
-	}
+	src := probeSource(c.Header, c.Reader)
 	cfg := &interp.Config{Argv0: "goawk", Environ: []string{}, NoExec: true, NoFileWrites: true, NoFileReads: true}
 	sep, _ := utf8.DecodeRuneInString(c.Sep)
 	var comment rune
@@ -400,6 +418,9 @@ func runIn(x *h.Ctx, c InCase) string {
 		nontrivial = true
 	}
 	x.Class("via-" + c.Via)
+	if c.Reader != "" {
+		x.Class("reader-" + c.Reader)
+	}
 	if c.BOM {
 		x.Class("bom")
 	}
@@ -509,6 +530,7 @@ func genIn(t *rapid.T) InCase {
 	}
 	c.Header = rapid.IntRange(0, 3).Draw(t, "header") == 0
 	c.BOM = rapid.IntRange(0, 3).Draw(t, "bom") == 0
+	c.Reader = rapid.SampledFrom([]string{"", "", "", "getline", "mixed"}).Draw(t, "reader")
 	if rapid.IntRange(0, 3).Draw(t, "setrs") == 0 {
 		c.RS = h.Str(rapid.SampledFrom([]string{"empty", ";", "a", "x+", "\n\n"}).Draw(t, "rs"))
 	}
